@@ -43,3 +43,6 @@ Props/C12.vos Props/C12.vok Props/C12.required_vos: Props/C12.v Base/Tactics.vos
 Proofs/DispatcherP.vo Proofs/DispatcherP.glob Proofs/DispatcherP.v.beautified Proofs/DispatcherP.required_vo: Proofs/DispatcherP.v Base/Tactics.vo Base/Prelude.vo Base/Fixed.vo Base/FMap.vo Model/Types.vo Model/Env.vo Model/Dispatcher.vo
 Proofs/DispatcherP.vio: Proofs/DispatcherP.v Base/Tactics.vio Base/Prelude.vio Base/Fixed.vio Base/FMap.vio Model/Types.vio Model/Env.vio Model/Dispatcher.vio
 Proofs/DispatcherP.vos Proofs/DispatcherP.vok Proofs/DispatcherP.required_vos: Proofs/DispatcherP.v Base/Tactics.vos Base/Prelude.vos Base/Fixed.vos Base/FMap.vos Model/Types.vos Model/Env.vos Model/Dispatcher.vos
+Props/C17.vo Props/C17.glob Props/C17.v.beautified Props/C17.required_vo: Props/C17.v Base/Tactics.vo Base/Prelude.vo Base/Fixed.vo Base/FMap.vo Model/Types.vo Model/Env.vo Model/Dispatcher.vo Proofs/DispatcherP.vo
+Props/C17.vio: Props/C17.v Base/Tactics.vio Base/Prelude.vio Base/Fixed.vio Base/FMap.vio Model/Types.vio Model/Env.vio Model/Dispatcher.vio Proofs/DispatcherP.vio
+Props/C17.vos Props/C17.vok Props/C17.required_vos: Props/C17.v Base/Tactics.vos Base/Prelude.vos Base/Fixed.vos Base/FMap.vos Model/Types.vos Model/Env.vos Model/Dispatcher.vos Proofs/DispatcherP.vos
